@@ -1330,7 +1330,8 @@ def _run_case(ctx, case, want, gtrace):
                               "Tree." + op["o"], "shape", {"got": got, "expected": exp[i]})
                 if cp and not gp:
                     ofail("C06", f"after op {k} {op['o']}: handle {i}: {cp[0]}", "Tree." + op["o"], "stale-vector", cp[:4])
-                elif not gp:
+                elif not gp and any(x["dlist"] is not None and sorted(x["dlist"]) != x["dps"]
+                                    for j, x in snap["nodes"].items() if j != snap["root_idx"]):
                     cpr, _ = cache_problems(ds, snap, tol, reported=True)
                     if cpr:
                         ofail("C06", f"after op {k} {op['o']}: handle {i}: {cpr[0]}", "Tree." + op["o"], "stale-vs-reported", cpr[:4])
